@@ -69,4 +69,12 @@ static inline sexp vf_exception(void) {
   sexp_exception_source(e) = SEXP_FALSE; sexp_exception_stack_trace(e) = SEXP_FALSE;
   return e;
 }
+/* a context of the real size with a globals vector (contents symbolic unless set) */
+static inline sexp vf_context(void) {
+  sexp ctx = vf_obj(sexp_sizeof(context), SEXP_CONTEXT);
+  sexp g = vf_vector(SEXP_G_NUM_GLOBALS);
+  sexp_context_globals(ctx) = g;
+  sexp_context_saves(ctx) = NULL;
+  return ctx;
+}
 #endif
